@@ -38,6 +38,10 @@ use vh::{Args, Rng};
 // ---------------------------------------------------------------------------------------------
 // salsa items
 
+/// untracked state outside salsa (`u<c>` leaves read it after `report_untracked_read`); process
+/// global so that it survives the serde round trip, reset per case
+static CELLS: Mutex<Vec<u32>> = Mutex::new(Vec::new());
+
 struct DbEnv {
     prog: Prog,
     inputs: OnceLock<Vec<In>>,
@@ -102,6 +106,10 @@ fn interp(db: &dyn PDb, e: &E) -> u32 {
         E::C(v) => *v,
         E::In(i) => read_in(db, *i),
         E::Call(q) => call_node(db, *q),
+        E::Cell(c) => {
+            db.report_untracked_read();
+            CELLS.lock().unwrap().get(*c).copied().unwrap_or(0)
+        }
         E::Add(a, b) => {
             let x = interp(db, a);
             let y = interp(db, b);
@@ -130,7 +138,7 @@ fn interp(db: &dyn PDb, e: &E) -> u32 {
 
 fn core_expr(e: &E) -> bool {
     match e {
-        E::C(_) | E::In(_) | E::Call(_) => true,
+        E::C(_) | E::In(_) | E::Call(_) | E::Cell(_) => true,
         E::Add(a, b) | E::Min(a, b) | E::Max(a, b) => core_expr(a) && core_expr(b),
         E::If(c, a, b) => core_expr(c) && core_expr(a) && core_expr(b),
         _ => false,
@@ -275,6 +283,7 @@ impl Runner {
     }
 
     fn new(case: &Case) -> Runner {
+        *CELLS.lock().unwrap() = vec![0; case.prog.ncells];
         let (db, env, events) = fresh_db(&case.prog);
         let nstruct = (case.prog.ninputs + 1) / 2;
         let mut ins = vec![];
@@ -395,6 +404,13 @@ impl Runner {
                     Err(p) => format!("panic:{}", panic_class(&*p)),
                 }
             }
+            POp::Op(Op::Cell(c, v)) => {
+                if *c >= self.db.env.prog.ncells {
+                    return "bad-op".into();
+                }
+                CELLS.lock().unwrap()[*c] = *v;
+                "ok".into()
+            }
             POp::Op(_) => return "bad-op".into(),
         };
         let ev = self.canon_events();
@@ -444,13 +460,54 @@ fn oracle_case(pc: &PCase, obs: &[&str], st: &mut OracleStats, case_no: usize, l
     let nn = case.prog.nodes.len();
     let mut inputs: Vec<u32> = case.init.iter().map(|x| x.0).collect();
     let mut durs: Vec<u8> = case.init.iter().map(|x| x.1).collect();
-    let cells: Vec<u32> = vec![];
+    let mut cells: Vec<u32> = vec![0; case.prog.ncells];
+    // a cell changed and no new revision has started since: salsa cannot know, values are unconstrained
+    let mut cells_dirty = false;
     // nodes whose memo is known to be verified in the current revision: requested successfully,
     // executed or validated since the last new revision (a restore does not start a revision)
     let mut verified = vec![false; nn];
     // Some(set) between a restore and the next new revision: the persisted nodes that were
     // verified in the snapshot's revision
     let mut guard: Option<Vec<bool>> = None;
+    // known finding kf6: the memo of a PERSISTED function is serialized with the flattened edges of its non-persisted
+    // callees, and flattening drops the fact that such a callee performed an untracked read; after a restore the persisted
+    // memo is validated although the untracked state changed.  Mechanism test: a persisted node calls a
+    // non-persisted node that reaches a cell read.
+    fn has_cell(e: &E) -> bool {
+        match e {
+            E::Cell(_) => true,
+            E::Add(a, b) | E::Min(a, b) | E::Max(a, b) => has_cell(a) || has_cell(b),
+            E::If(c, a, b) => has_cell(c) || has_cell(a) || has_cell(b),
+            _ => false,
+        }
+    }
+    fn calls(e: &E, out: &mut Vec<usize>) {
+        match e {
+            E::Call(q) => out.push(*q),
+            E::Add(a, b) | E::Min(a, b) | E::Max(a, b) => { calls(a, out); calls(b, out); }
+            E::If(c, a, b) => { calls(c, out); calls(a, out); calls(b, out); }
+            _ => {}
+        }
+    }
+    // untracked_np[q]: q reads a cell itself or through any callee (flattening goes down to the base inputs, also
+    // through persisted functions below a non-persisted one)
+    let mut untracked_np = vec![false; nn];
+    for _ in 0..nn {
+        for q in 0..nn {
+            if !untracked_np[q] {
+                let mut cs = vec![];
+                calls(&case.prog.nodes[q].1, &mut cs);
+                if has_cell(&case.prog.nodes[q].1) || cs.iter().any(|c| *c < nn && untracked_np[*c]) {
+                    untracked_np[q] = true;
+                }
+            }
+        }
+    }
+    let kf6_shape = (0..nn).any(|q| {
+        let mut cs = vec![];
+        calls(&case.prog.nodes[q].1, &mut cs);
+        persisted(q) && cs.iter().any(|c| *c < nn && !persisted(*c) && untracked_np[*c])
+    });
     let mut nontrivial = false;
     let mut seen_snapshot = false;
     let fail = |st: &mut OracleStats, i: usize, msg: String| {
@@ -506,6 +563,7 @@ fn oracle_case(pc: &PCase, obs: &[&str], st: &mut OracleStats, case_no: usize, l
                 }
                 verified.iter_mut().for_each(|x| *x = false);
                 guard = None;
+                cells_dirty = false;
             }
             POp::Op(Op::Synth(d)) => {
                 if *d == 3 {
@@ -517,6 +575,17 @@ fn oracle_case(pc: &PCase, obs: &[&str], st: &mut OracleStats, case_no: usize, l
                 }
                 verified.iter_mut().for_each(|x| *x = false);
                 guard = None;
+                cells_dirty = false;
+            }
+            POp::Op(Op::Cell(c, v)) if *c < cells.len() => {
+                if main != "ok" {
+                    fail(st, i, format!("key=cell-failed `{}`", main));
+                }
+                if cells[*c] != *v {
+                    cells_dirty = true;
+                }
+                cells[*c] = *v;
+                *st.hist.entry("cell-writes".into()).or_default() += 1;
             }
             POp::Op(Op::Get(q)) => {
                 st.gets += 1;
@@ -549,11 +618,14 @@ fn oracle_case(pc: &PCase, obs: &[&str], st: &mut OracleStats, case_no: usize, l
                     }
                 }
                 let want = format!("v={}", Ref::new(Env { prog: &case.prog, inputs: &inputs, cells: &cells }).node(*q).n);
-                if main != want {
+                if cells_dirty {
+                    *st.hist.entry("gets-skipped-cell-dirty".into()).or_default() += 1;
+                } else if main != want {
                     if main.starts_with("panic:") {
                         fail(st, i, format!("key=unexpected-panic got `{}` want `{}`", main, want));
                     } else {
-                        fail(st, i, format!("key=value got `{}` want `{}`{}", main, want, if seen_snapshot { " (after a restore)" } else { "" }));
+                        let key = if seen_snapshot && kf6_shape { "untracked-read-below-nonpersisted-lost-by-flattening" } else { "value" };
+                        fail(st, i, format!("key={} got `{}` want `{}`{}", key, main, want, if seen_snapshot { " (after a restore)" } else { "" }));
                     }
                 } else if *q < nn {
                     verified[*q] = true;
@@ -584,7 +656,27 @@ fn main() {
             let mut seen = std::collections::HashSet::new();
             let n = args.num("--cases", 100);
             for _ in 0..n {
-                let c = gen_case(&mut r, Profile::Core);
+                let mut c = gen_case(&mut r, Profile::Core);
+                if args.flag("--cells") {
+                    // untracked reads under persistence: `u0` leaves in about half of the nodes (persisted and not),
+                    // cell changes followed by a new revision (the property speaks about those)
+                    c.prog.ncells = 1;
+                    let nn = c.prog.nodes.len();
+                    let mut any = false;
+                    for q in 0..nn {
+                        if r.below(2) == 0 || (q + 1 == nn && !any) {
+                            let old = std::mem::replace(&mut c.prog.nodes[q].1, E::C(0));
+                            c.prog.nodes[q].1 = E::Add(Box::new(old), Box::new(E::Cell(0)));
+                            any = true;
+                        }
+                    }
+                    let k = 1 + r.usize(3);
+                    for _ in 0..k {
+                        let p = r.usize(c.ops.len() + 1);
+                        c.ops.insert(p, Op::Synth(r.below(3) as u8));
+                        c.ops.insert(p, Op::Cell(0, r.below(4) as u32));
+                    }
+                }
                 let mut ops: Vec<POp> = c.ops.iter().cloned().map(POp::Op).collect();
                 let k = 1 + r.usize(2);
                 let mut pos = vec![];
